@@ -100,9 +100,11 @@ class SamplerRecorder:
 
 def gen(ch, tier):
     scn = world.gen_gamma_scenario(ch.sub("scn"), max_annot=4, max_units=7, max_samples=10,
-                                   precisions=(None, None, 0.3, 0.2, 0.15, "low", "medium", "high"))
+                                   precisions=(None, None, 0.3, 0.2, 0.15, "low", "medium", "high"), large_fast=0.06)
+    # pre-history: the continuum may carry a window size recorded by an earlier fast-mode computation
+    pre_window = ch.choice([None, None, None, 1, 2, 3]) if scn["mode"] != "fast" else None
     return {"scenario": scn, "schedule": world.gen_schedule(ch.sub("sched")),
-            "faults": world.gen_faults(ch.sub("faults"), 0.4)}
+            "faults": world.gen_faults(ch.sub("faults"), 0.4), "pre_window": pre_window}
 
 
 def _identical_annotators(cont):
@@ -111,6 +113,7 @@ def _identical_annotators(cont):
 
 
 def _recompute(mode, sample, dissim):
+    """the alignment the *requested mode* stands for, recomputed sequentially"""
     if mode == "soft":
         return sample.get_best_soft_alignment(dissim)
     if mode == "fast" and sample.best_window_size != np.inf:
@@ -136,6 +139,10 @@ def run(case):
     dissim = world.build_dissim(scn["dissim"])
     stats, violations = {}, []
     keys = {"scenarios": [digest(case["scenario"])], "nontrivial": [], "schedules": []}
+    if case.get("pre_window") is not None:
+        # state left behind by an earlier fast-mode gamma on the same continuum (documented side effect)
+        continuum.best_window_size = case["pre_window"]
+        stats["pre_window_set"] = 1
     n = scn["n_samples"]
     schedule = case["schedule"]
     # ---- preliminary canonical run (precision off) to size the second batch -----
@@ -350,4 +357,8 @@ def shrink_candidates(case, violation):
     if case["schedule"]["policy"].get("policy") != "seq":
         c = copy.deepcopy(case)
         c["schedule"] = copy.deepcopy(world.CANONICAL_SCHEDULE)
+        yield c
+    if case.get("pre_window") is not None:
+        c = copy.deepcopy(case)
+        c["pre_window"] = None
         yield c
